@@ -60,6 +60,12 @@ pub fn suts() -> Vec<Sut> {
               expect: &[("unreachable-code", 0, 3)], makes_node: true },
         Sut { name: "in-data-segment", text: "addi t0, t0, 1", before: &[".data"], after: &[".text", "li a7, 10", "ecall"],
               expect: &[("invalid-segment", 0, 3)], makes_node: true },
+        Sut { name: "char-unicode-escape", text: "li t1, '\\u0041'", before: &[], after: EXIT,
+              expect: &[("dead-assignment", 1, 1)], makes_node: true },
+        Sut { name: "char-escape", text: "li t1, '\\n'", before: &[], after: EXIT,
+              expect: &[("dead-assignment", 1, 1)], makes_node: true },
+        Sut { name: "string-escapes", text: ".asciz \"a\\u0041\\tb\"", before: &[".data"], after: &[".text", "li a7, 10", "ecall"],
+              expect: &[], makes_node: true },
         Sut { name: "stray-paren", text: "( t0", before: &[], after: EXIT,
               expect: &[("parse-unexpected-token", 0, 0)], makes_node: false },
     ]
@@ -311,7 +317,21 @@ impl C09 {
                 );
                 return;
             }
-            if let Some(sp) = spelling(t.token_type()) {
+            let has_escape = matches!(t.token_type(), TokenType::String(_) | TokenType::Char(_))
+                && loc.slice(r.start().raw_index(), r.end().raw_index()).contains('\\');
+            if has_escape {
+                // the source spelling of a literal with escapes: from its opening to its closing quote
+                let got = loc.slice(r.start().raw_index(), r.end().raw_index());
+                let q = if matches!(t.token_type(), TokenType::Char(_)) { '\'' } else { '"' };
+                if !(got.starts_with(q) && got.ends_with(q) && got.chars().count() >= 3) {
+                    acc.violation(
+                        format!("C09|token|{kind}|text-mismatch"),
+                        case,
+                        witness("the characters between start and end are not the quoted literal", json!({"token": format!("{:?}", t.token_type()), "designated": got})),
+                    );
+                    return;
+                }
+            } else if let Some(sp) = spelling(t.token_type()) {
                 let got = loc.slice(r.start().raw_index(), r.end().raw_index());
                 let want = if kind == "comment" { sp.trim_end_matches('\r').to_string() } else { sp };
                 if got.trim_end_matches('\r') != want {
@@ -463,7 +483,7 @@ impl Property for C09 {
     }
     fn info(&self, _tier: Tier) -> Info {
         Info {
-            rule: "17 statement kinds (each node constructor, label, directives, malformed statements, statements that draw a specific diagnostic) x 4 positions (first line / after 1 line / after blank lines) x 5 indentations x 3 trailing texts x {alone, label in front, second statement behind} x {LF, CRLF, no final newline} x {base, included file}: every lexer token, every node range, every parse error and every diagnostic must have line/column equal to the harness locator's values for its raw offsets, lie in the file on one line, and designate exactly the token(s) known by construction. Non-trivial = layouts that are not 'first line, no indentation, alone'".into(),
+            rule: "20 statement kinds (each node constructor, label, directives, malformed statements, statements that draw a specific diagnostic) x 4 positions (first line / after 1 line / after blank lines) x 5 indentations x 3 trailing texts x {alone, label in front, second statement behind} x {LF, CRLF, no final newline} x {base, included file}: every lexer token, every node range, every parse error and every diagnostic must have line/column equal to the harness locator's values for its raw offsets, lie in the file on one line, and designate exactly the token(s) known by construction. Non-trivial = layouts that are not 'first line, no indentation, alone'".into(),
             bounds: json!({"statement_kinds": self.suts.len(), "layouts_per_statement": 4 * 5 * 3 * 3 * 3 * 2, "quick_equals_thorough": true}),
             assumptions: vec![
                 "zero-based lines/columns and inclusive end offsets, the convention of the repository's own JSON expectations".into(),
